@@ -206,7 +206,7 @@ class Interp:
             return b[i]
         if k == "discr":
             return 0 if self.ov(x[1]) is None else 1
-        if x in self.ints:
+        if self.ints and x[0] == "p" and x in self.ints:
             return self.ints[x]
         if k == "cast":
             v = self.iv(x[1])
@@ -248,8 +248,11 @@ class Interp:
             a, b = self.iv(x[2]), self.iv(x[3])
             if x[1] in ("Div", "Rem") and b == 0:
                 raise Undefined()
-            r = {"Add": a + b, "Sub": a - b, "Mul": a * b, "Div": a // b if b else 0, "Rem": a % b if b else 0, "Shl": a << b, "Shr": a >> b,
-                 "BitAnd": a & b, "BitOr": a | b}[x[1]]
+            if x[1] in ("Shl", "Shr") and not (0 <= b < 128):
+                raise Undefined()           # shift amounts beyond the width overflow (a panic in checked builds)
+            op = x[1]
+            r = (a + b if op == "Add" else a - b if op == "Sub" else a * b if op == "Mul" else a // b if op == "Div" else a % b if op == "Rem" else
+                 a << b if op == "Shl" else a >> b if op == "Shr" else a & b if op == "BitAnd" else a | b)
             if x[4] in sym.INT_TYS:
                 lo, hi = sym.ty_range(x[4])
                 if not (lo <= r <= hi):
